@@ -43,10 +43,11 @@ Proof.
       assert (t = t0) by lia. subst. reflexivity.
   - (* EAddCallback *)
     inv H. sub_on_coord H. inv_guard Hf. injection Hf as <-.
-    apply orb_false_elim in Heqb0 as [Hm1 Hm2].
+    match goal with Hor : _ || _ || _ = false |- _ =>
+      apply orb_false_elim in Hor as [Hm12 _]; apply orb_false_elim in Hm12 as [Hm1 Hm2] end.
     eapply upd_by_cstep; [exact Hfc| |reflexivity]. now constructor.
   - (* EAddCleanup *)
-    inv H. sub_on_coord H. injection Hf as <-.
+    inv H. sub_on_coord H. destruct (c_cl_runner c0); [discriminate|]. injection Hf as <-.
     eapply upd_by_cstep; [exact Hfc|constructor|reflexivity].
   - (* ESubmit *) inv H. injection H as <-. coords_same.
   - (* EAcquire *)
@@ -54,7 +55,7 @@ Proof.
     inv H. injection H as <-. coords_same.
   - (* EEnqueue *)
     destruct (find_task k (tasks s)); [|discriminate]. inv H. injection H as <-. coords_same.
-  - (* EAssoc *) sub_on_task H. coords_same.
+  - (* EAssoc *) inv H. sub_on_task H. coords_same.
   - (* ETaskStart *)
     destruct (find_task k (tasks s)); [|discriminate].
     destruct (stage_eqb (k_stage t) SInline).
@@ -145,7 +146,7 @@ Proof.
         rewrite Efc in Hfc. injection Hfc as <-.
         eapply upd_by_cstep; [exact Efc| |reflexivity]. now apply cs_ann_begin.
   - (* ECleanupsBegin *)
-    sub_on_coord H. destruct (ann_phase a (c_announcers c)) as [p|] eqn:Eap; [|discriminate]. clean_but H.
+    inv H. sub_on_coord H. destruct (ann_phase a (c_announcers c)) as [p|] eqn:Eap; [|discriminate]. clean_but H.
     destruct p as [|p|p]; try discriminate. destruct (c_cl_runner c) eqn:Ecl; [discriminate|].
     inv_guard Hf. injection Hf as <-.
     eapply upd_by_cstep; [exact Hfc| |reflexivity]. apply cs_cl_begin; auto.
@@ -162,16 +163,20 @@ Proof.
     destruct (c_cl_runner c) eqn:Ecl; [|discriminate].
     destruct (ann_phase a (c_announcers c)) as [p|] eqn:Eap; [|discriminate]. clean_but H.
     destruct p as [|p|p]; try discriminate. destruct p; try discriminate.
-    inv_guard Hf. injection Hf as <-. assert (a0 = a) by lia. subst.
-    eapply upd_by_cstep; [exact Hfc| |reflexivity]. now apply cs_cl_end.
+    inv_guard Hf. injection Hf as <-.
+    match goal with Hg : _ && _ = true |- _ => apply andb_prop in Hg as [Hg1 Hg2] end.
+    assert (a0 = a) by lia. subst.
+    assert (Hnil : c_cleanups c = []) by (destruct (c_cleanups c); [reflexivity|discriminate]).
+    eapply upd_by_cstep; [exact Hfc| |reflexivity].
+    exact (cs_cl_end c a Ecl Eap Hnil).
   - (* EEventSet *)
-    sub_on_coord H. destruct (ann_phase a (c_announcers c)) as [p|] eqn:Eap; [|discriminate]. clean_but H.
+    inv H. sub_on_coord H. destruct (ann_phase a (c_announcers c)) as [p|] eqn:Eap; [|discriminate]. clean_but H.
     inv_guard Hf. injection Hf as <-.
     eapply upd_by_cstep; [exact Hfc| |reflexivity]. eapply cs_event; [exact Eap|].
-    apply orb_prop in Heqb as [E|E]; [left; lia|right].
+    match goal with Hor : _ || _ = true |- _ => apply orb_prop in Hor as [E|E] end; [left; lia|right].
     apply andb_prop in E as [E1 E2]. apply status_eqb_eq in E2. split; [lia|exact E2].
   - (* ECallbacksBegin *)
-    sub_on_coord H. destruct (ann_phase a (c_announcers c)) as [p|] eqn:Eap; [|discriminate]. clean_but H.
+    inv H. sub_on_coord H. destruct (ann_phase a (c_announcers c)) as [p|] eqn:Eap; [|discriminate]. clean_but H.
     destruct p as [|p|p]; try discriminate. destruct p as [p|p|]; try discriminate.
     destruct p; try discriminate.
     destruct (c_cb_runner c) eqn:Ecb; [discriminate|]. injection Hf as <-.
@@ -193,6 +198,7 @@ Proof.
     inv_guard Hf. injection Hf as <-. assert (a0 = a) by lia. subst.
     eapply upd_by_cstep; [exact Hfc| |reflexivity]. now apply cs_cb_end.
   - (* EAnnEnd *)
+    destruct (busy s a); [discriminate|].
     destruct (find_coord t (coords s)) eqn:Efc; [|discriminate]. clean_but H.
     destruct (ann_phase a (c_announcers c)) as [p|] eqn:Eap; [|discriminate]. clean_but H.
     destruct p as [|p|p]; try discriminate. destruct p as [p|p|]; try discriminate.
